@@ -57,7 +57,7 @@ WS_APPS = {
                    ("send", {"type": "websocket.send", "text": "late"})],
 }
 FAULTS = ["none", "eof", "reset", "wfail", "terminate", "client_close"]
-CARRIERS = ["h1", "h2", "ws/h1", "ws/h2"]
+CARRIERS = ["h1", "h1x2", "h2", "ws/h1", "ws/h2"]  # h1x2: a keep-alive pair, the scripted application serves the second request
 
 
 def scenarios(tier: str) -> List[Any]:
@@ -69,12 +69,16 @@ def scenarios(tier: str) -> List[Any]:
                 for fault in FAULTS:
                     if fault == "client_close" and not carrier.startswith("ws") and carrier != "h2":
                         continue
+                    if carrier == "h1x2" and (app not in ("gated", "early", "late") or fault in ("wfail",)):
+                        continue
                     out.append((engine, carrier, app, fault))
     return out
 
 
 def bounds(tier: str, params: Any) -> dict:
     if tier == "quick":
+        if params[0] == "trio" and params[1] == "h1x2":
+            return {"M": 1, "S": 1, "R": 1}  # the recycle between two requests depends on trio's batch order
         return {"M": 1, "S": 2, "R": 0}
     return {"M": 2, "S": 3, "R": 1 if params[0] == "trio" else 0}
 
@@ -88,6 +92,13 @@ def build(params: Any) -> tuple:
         client = [("data", 0, req[:25]), ("data", 0, req[25:])]
         conn["methods"] = [b"POST"]
         apps = {"http": HTTP_APPS[app]}
+    elif carrier == "h1x2":
+        pre = h1_request(b"GET", b"/pre")
+        req = h1_request(b"POST", b"/x", body=b"hello")
+        client = [("data", 0, pre), ("data", 0, req)]  # whole, so that one mid-flight injection can land inside the recycle
+        conn["carrier"] = "h1"
+        conn["methods"] = [b"GET", b"POST"]
+        apps = {"http:/pre": [("recv_body",), ("send", START), ("send", B1), ("send", B2)], "http:/x": HTTP_APPS[app]}
     elif carrier == "h2":
         conn.update(tls=True, alpn="h2")
         client = [("cmd", 0, "preface"),
